@@ -161,6 +161,16 @@ def _simulate(dec, rec, tier, scr):
             cfg["calc"] = cfg["calc"][:2]
             cfg["ncalc"] = len(cfg["calc"])
             T = min(T, 3)
+    # "long" histories: iteration numbers with two digits (>= 10) exist before a restart, so that the order of the
+    # per-iteration weight files (numeric vs. lexicographic, zero-padded or not) matters.  Kept cheap: one refined cell
+    # per iteration, mesh 2, one calculator.
+    long_hist = cls == "boundary" and dec.chance("cfg/long", 1, 6)
+    if long_hist:
+        cfg["calc"] = cfg["calc"][:1]
+        cfg["ncalc"] = 1
+        cfg["adpt_fac"] = 1
+        cfg["adpt_mesh"] = 2
+        T = 11 + dec("cfg/Tlong", 4)
     cfg["adpt_num_iter"] = T
     listing = dec.pick("fs/listing", [2, 2, 3, 2])
     modes = ["restartable", "dump"]
@@ -179,8 +189,12 @@ def _simulate(dec, rec, tier, scr):
             span = T - 1 - lo
             if span < 0:
                 break
-            stop = lo + (dec(f"cfg/stop/{k}", span + 1) if done is None else
-                         (0 if (span == 0 or dec.chance(f"cfg/zero/{k}", 1, 10)) else 1 + dec(f"cfg/stop/{k}", span)))
+            if long_hist and done is None and dec.chance("cfg/longstop", 1, 2):
+                # bias the first stop into the two-digit iterations
+                stop = 10 + dec("cfg/stoplong", T - 10)
+            else:
+                stop = lo + (dec(f"cfg/stop/{k}", span + 1) if done is None else
+                             (0 if (span == 0 or dec.chance(f"cfg/zero/{k}", 1, 10)) else 1 + dec(f"cfg/stop/{k}", span)))
         how = "return" if last else ["crash", "return"][dec(f"cfg/how/{k}", 2)]
         plan.append(dict(k=k, restart=done is not None, start=done, stop=stop, how=how,
                          mode=modes[dec(f"cfg/mode/{k}", 2)], parallel=bool(dec.chance(f"cfg/parallel/{k}", 1, 4)),
@@ -198,6 +212,8 @@ def _simulate(dec, rec, tier, scr):
     counters = {}
     if cfg.get("grid_type") == "GridTetra":
         counters["tetra_grid"] = 1
+    if any(q["restart"] and q["start"] is not None and q["start"] >= 10 for q in plan):
+        counters["restart_after_two_digit_iteration"] = 1
     sample = dict(config=cases.brief(cfg), T=T, cls=cls, listing=SimDisk.LISTING[listing],
                   plan=[{k: v for k, v in p.items()} for p in plan])
     base = dict(sample=sample, counters=counters, real=REAL, stub=STUB, vtime=ref.vtime)
